@@ -7,7 +7,7 @@ from trie.fog import HexaryTrieFog, TrieFrontierCache
 from trie.exceptions import (PerfectVisibility, FullDirectionalVisibility, MissingTraversalNode, TraversedPartialPath)
 
 ID = "C09"
-LEAN_IMPORTS = ["PyTrie.Props.C09", "PyTrie.Props.NonVacuity", "PyTrie.Props.NonVacuity2", "PyTrie.Props.NonVacuity6", "PyTrie.Props.NonVacuity7", "PyTrie.Props.NonVacuity8"]
+LEAN_IMPORTS = ["PyTrie.Props.C09", "PyTrie.Props.NonVacuity", "PyTrie.Props.NonVacuity2", "PyTrie.Props.NonVacuity6", "PyTrie.Props.NonVacuity7", "PyTrie.Props.NonVacuity8", "PyTrie.Props.C09Termination", "PyTrie.Props.NonVacuity10"]
 THEOREMS = [
     "PyTrie.Props.C09.step_defined",
     "PyTrie.Props.C09.finds_stable",
@@ -62,6 +62,13 @@ THEOREMS = [
     "PyTrie.Props.NonVacuity7.stale_step_cache_invariant",
     "PyTrie.Props.C09.raw_step_refines",
     "PyTrie.Props.C09.raw_cache_invariant",
+    "PyTrie.Props.C09.fog_length_le_mu",
+    "PyTrie.Props.C09.walk_length_bounded",
+    "PyTrie.Props.C09.concrete_walk_length_bounded",
+    "PyTrie.Props.C09.raw_walk_length_bounded",
+    "PyTrie.Props.C09.raw_walk_complete_at_bound",
+    "PyTrie.Props.NonVacuity10.sched8_keys_short",
+    "PyTrie.Props.NonVacuity10.walk_bound_witness",
 ]
 RULE = ("walks over tries built by generated histories: at every step an unexplored prefix is taken with nearest_unknown or "
         "nearest_right for a (changing) query key, traversed from the root or from a TrieFrontierCache entry (stale entries "
